@@ -5,6 +5,7 @@ Message/String/ByteBuffer/Point/Rect), EFFECT-2 (the reader of each codec consum
 import re
 from msa import effect as E
 from msa import ast as A
+from msa import guards as G
 from msa import sticky as S
 from msa.facts import AnalysisBroken
 from . import common
@@ -423,6 +424,9 @@ def run(res, tier):
     exact_fit_rule(res, fx)
     min_entry_rule(res, fx)
     checksum_agree_rule(res, fx, tcs, table)
+    count_agree_rule(res, fx)
+    item_size_at_use_rule(res, fx, tcs)
+    restore_only_reads_rule(res, fx)
     res.explanation = ('Static decision of the size/shape half of C01 by symbolic evaluation (no code is run): a small abstract interpreter over the resolved AST turns every serialiser into a polynomial over '
                        'symbolic counts and sub-object sizes (Write*/Read* widths, for/iterator loops as sums, null/flag tests as alternatives, virtual calls resolved in the concrete class, switch tables evaluated '
                        'under the type-code constraint) and requires exact equality between Flatten and FlattenedSize for all %d array classes, all %d single-item type codes and the five container/value classes; '
@@ -524,6 +528,94 @@ def table_rule(res, fx, tcs, tcname):
                key='TABLE-1|elementsize-nonzero', message='GetElementSize returns 0 for %s: a single item of that type is sized as a variable-size object' % miss)
         res.ob('TABLE-1', gfs[0].where(), 'GetFlattenedSizeForFixedSizeType gives the documented wire widths (bool 1, int8 1, int16 2, int32/float 4, int64/double 8, point 8, rect 16)', not bad,
                how=str({k: x[k] for k in want}), function=gfs[0].q, key='TABLE-1|wire-widths', message='wire widths deviate: %s' % bad)
+
+
+def count_agree_rule(res, fx):
+    """the entry-count word of a flattened Message counts the entries that Flatten() writes: it is a local counter that is incremented under exactly the guards under which an entry is written
+    (same iteration, same IsFlattenable() test) — not a quantity computed some other way that happens to agree for the Messages one has tried"""
+    res.rule('COUNT-AGREE', 'Message::Flatten: the value stored into the entry-count word is a local counter whose every increment sits under the same dominating conditions as the write of an entry\'s '
+                            'name (so it counts exactly the entries written)', floor=1)
+    f = [g for g in fx.funcs.values() if g.full and g.q == 'muscle::Message::Flatten' and g.params and 'DataFlattener' in g.ptype(g.params[0])]
+    if not f:
+        raise AnalysisBroken('COUNT-AGREE: Message::Flatten(DataFlattener) not found')
+    f = f[0]
+    # the count word: Export(V, p) with p taken from GetCurrentWritePointer(), else the third WriteInt32
+    V = None
+    for c in f.walk():
+        if c.is_call() and (c.get('q') or '').endswith('EndianConverter::Export') and len(c.args()) >= 2 and any(x.is_call() and (x.get('q') or '').endswith('::GetCurrentWritePointer') for x in A.walk_through_locals(f, c.args()[1])):
+            V = c.args()[0]
+    if V is None:
+        w32 = sorted((c for c in f.walk() if c['k'] == 'CXXMemberCallExpr' and (c.get('q') or '').endswith('DataFlattenerHelper::WriteInt32') and not any(a['k'] in ('ForStmt', 'WhileStmt') for a in c.ancestors())), key=lambda c: c['i'])
+        if len(w32) >= 3:
+            V = w32[2].args()[0]
+    keyw = [c for c in f.walk() if c['k'] == 'CXXMemberCallExpr' and (c.get('q') or '').endswith('::WriteFlatWithLengthPrefix') and any(x.is_call() and (x.get('q') or '').endswith('::GetKey') for a in c.args() for x in a.walk())]
+    if V is None or not keyw:
+        raise AnalysisBroken('COUNT-AGREE: the entry-count word / the write of an entry name was not found in Message::Flatten')
+
+    def gkeys(n):
+        return frozenset((A.render_key(a), t) for (a, t) in G.atoms_at(f, n) if not (a.is_call() and (a.get('q') or '').endswith('::HasData')))
+    v0 = A.strip_casts(V)
+    ok, how = False, None
+    if v0['k'] == 'DeclRefExpr' and v0.get('d') is not None:
+        incs = [x for x in f.walk() if x['k'] == 'UnaryOperator' and x.get('op') in ('post++', 'pre++') and A.strip_casts(x['ch'][0]).get('d') == v0['d']]
+        incs += [x for x in f.walk() if x['k'] == 'CompoundAssignOperator' and x.get('op') == '+=' and A.strip_casts(x['ch'][0]).get('d') == v0['d'] and A.strip_casts(x['ch'][1]).get('v') == 1]
+        others = [x for x in f.walk() if x['k'] in ('BinaryOperator', 'CompoundAssignOperator') and x.get('op') in A.ASSIGN_OPS and A.strip_casts(x['ch'][0]).get('d') == v0['d'] and x not in incs]
+        ok = bool(incs) and not others and all(gkeys(i) == gkeys(keyw[0]) for i in incs)
+        how = 'counter `%s`, %d increment(s) under %s' % (v0.get('n'), len(incs), sorted(k for (k, t) in gkeys(keyw[0])))
+    res.ob('COUNT-AGREE', f.where(V), 'Message::Flatten stores a counter of the entries it wrote into the entry-count word', ok, how=how, function=f.q, key='COUNT-AGREE|%s' % f.q,
+           message='Message::Flatten writes `%s` as the number of entries, which is not a counter incremented where an entry is written (under the same IsFlattenable() test): for a Message with a field '
+                   'that the two disagree on (e.g. a B_TAG_TYPE field, which is not flattenable either) the header announces more entries than follow and the bytes do not parse back' % V.text(60))
+
+
+def item_size_at_use_rule(res, fx, tcs):
+    """MessageField::GetNumItemsInFlattenedBuffer chooses between the single-item and the array reader from payloadLength / itemSize: the divisor it uses must be the wire width for the
+    fixed-width types and 0 (= "ask the payload") for every other type — whatever helper it gets the value from"""
+    res.rule('ITEM-SIZE', 'the item size by which MessageField::GetNumItemsInFlattenedBuffer divides the payload length evaluates, for each type code, to the documented wire width of a fixed-width '
+                          'type and to 0 for a variable-size type', floor=10)
+    fs = [g for g in fx.funcs.values() if g.full and g.q == MF + '::GetNumItemsInFlattenedBuffer']
+    if not fs:
+        raise AnalysisBroken('ITEM-SIZE: MessageField::GetNumItemsInFlattenedBuffer not found')
+    f = fs[0]
+    div = [n for n in f.walk() if n['k'] == 'BinaryOperator' and n.get('op') == '/' and A.strip_casts(n['ch'][0]).get('d') in set(p_['d'] for p_ in f.params)]
+    if not div:
+        raise AnalysisBroken('ITEM-SIZE: no division of the payload length found in GetNumItemsInFlattenedBuffer')
+    expr = G.local_init(f, div[0]['ch'][1])
+    want = {'B_BOOL_TYPE': 1, 'B_INT8_TYPE': 1, 'B_INT16_TYPE': 2, 'B_INT32_TYPE': 4, 'B_FLOAT_TYPE': 4, 'B_INT64_TYPE': 8, 'B_DOUBLE_TYPE': 8, 'B_POINT_TYPE': 8, 'B_RECT_TYPE': 16}
+    for name, tc in sorted(tcs.items()):
+        if name in ('B_POINTER_TYPE', 'B_TAG_TYPE', 'B_ANY_TYPE', 'B_OBJECT_TYPE'):
+            continue
+        try:
+            ev = E.Evaluator(fx, consts={'_typeCode': tc})
+            val = E.pconst(ev.val(expr, {}))
+        except E.Outside as e:
+            raise AnalysisBroken('ITEM-SIZE: the divisor `%s` is outside the evaluated fragment for %s: %s' % (expr.text(40), name, e))
+        w = want.get(name, 0)
+        res.ob('ITEM-SIZE', f.where(div[0]), 'item size used for %s is %d' % (name, w), val == w, how=str(val), function=f.q, key='ITEM-SIZE|%s' % name,
+               message='MessageField::GetNumItemsInFlattenedBuffer divides the payload length of a %s field by %s (expected %d): the field is parsed with the wrong reader whenever that quotient is 1 — '
+                       'e.g. a string array whose payload is 16..31 bytes long is taken for a single string and the Message is rejected' % (name, val, w))
+
+
+def restore_only_reads_rule(res, fx):
+    """bit-identical restore: the Unflatten() of the fixed-size value classes only reads into its own storage; it does not normalise, clamp or otherwise post-process what it read"""
+    res.rule('RESTORE-VERBATIM', 'Point::Unflatten and Rect::Unflatten call nothing on *this except what provides the destination of a Read* call (no normalisation of the value read)', floor=2)
+    n = 0
+    for f in sorted((g for g in fx.funcs.values() if g.full and re.search(r'^muscle::(Point|Rect)::Unflatten$', g.q)), key=lambda g: (g.file, g.line)):
+        n += 1
+        reads = [c for c in f.walk() if c['k'] == 'CXXMemberCallExpr' and re.search(r'DataUnflattenerHelper::Read\w+$', c.get('q') or '')]
+        in_read_args = set(x['i'] for c in reads for a in c.args() for x in a.walk())
+        bad = None
+        for c in f.walk():
+            if c['k'] == 'CXXMemberCallExpr' and c not in reads and c['i'] not in in_read_args:
+                rc = c.receiver()
+                if rc is None or A.strip_casts(rc)['k'] == 'CXXThisExpr':
+                    g_ = fx.funcs.get(c.get('fn')) if c.get('fn') else None
+                    if g_ is None or not g_.const:
+                        bad = bad or c
+        res.ob('RESTORE-VERBATIM', f.where(bad) if bad is not None else f.where(), '%s only reads' % f.q.split('muscle::')[-1], bad is None and bool(reads), function=f.q, key='RESTORE-VERBATIM|%s' % f.q,
+               message='%s calls %s() on the object it has just read: the restored value is post-processed, so items are not restored bit-identically (Rect (0,0,-1,-1) comes back as (-1,-1,0,0); '
+                       'equality, checksum and re-serialised bytes change)' % (f.q, (bad.get('q') or '').split('::')[-1] if bad is not None else ''))
+    if n < 2:
+        raise AnalysisBroken('RESTORE-VERBATIM: Point::Unflatten / Rect::Unflatten not found (%d)' % n)
 
 
 def dispatch_rule(res, fx):
